@@ -19,7 +19,9 @@ CONSTANTS NSlots,      \* directory slots
           Starts,      \* possible initial destination offsets
           TailLen,     \* pre-existing content beyond the start offset
           MaxBlobs,    \* max writers per dump that append bytes without a directory entry
-          FlushFirst   \* TRUE: stream bytes, then directory entry; FALSE: entry first, then bytes
+          FlushFirst,  \* TRUE: stream bytes, then directory entry; FALSE: entry first, then bytes
+          WriteAll     \* TRUE: the tail is written with write_all (the destination may take it in several pieces, the writer goes on
+                       \* only when all of it is accepted); FALSE: one write call, whose partial progress is taken for the whole
 VARIABLES img,      \* Seq of cells
           file,     \* Seq of cells (Garbage = pre-existing)
           start,    \* destination offset when the DirSection was created
@@ -54,14 +56,19 @@ AllocHeaderAndDir ==
   /\ pc' = "tail" /\ saved' = 0
   /\ UNCHANGED <<file, start, fpos, hi, idx, flushed, pending, crashed, nblob>>
 
-(* destination.write_all(&buffer[last_position_written_to_file..]) *)
-WriteTail ==
+(* destination.write_all(&buffer[last_position_written_to_file..]): the destination accepts the first n cells of what is
+   offered (a short write: a full disk, a pipe); write_all offers the rest again.  Short writes are considered once the
+   header and the directory are out (before that nothing the property speaks about has reached the destination). *)
+AfterTail == IF FlushFirst /\ pending # <<>> THEN "dirent_mem" ELSE "stream"
+WriteTail(n) ==
   /\ pc = "tail"
-  /\ file' = WriteAt(file, fpos, SubSeq(img, flushed + 1, Len(img)))
-  /\ fpos' = fpos + (Len(img) - flushed)
-  /\ hi' = Max(hi, fpos')
-  /\ flushed' = Len(img)
-  /\ pc' = IF FlushFirst /\ pending # <<>> THEN "dirent_mem" ELSE "stream"
+  /\ LET rest == Len(img) - flushed IN
+     /\ IF rest = 0 THEN n = 0 ELSE (n = rest \/ (flushed >= HdrLen + NSlots /\ n >= 1 /\ n < rest))
+     /\ file' = IF n = 0 THEN file ELSE WriteAt(file, fpos, SubSeq(img, flushed + 1, flushed + n))
+     /\ fpos' = fpos + n
+     /\ hi' = Max(hi, fpos')
+     /\ flushed' = IF WriteAll THEN flushed + n ELSE Len(img)          \* last_position_written_to_file
+     /\ pc' = IF n = rest \/ ~WriteAll THEN AfterTail ELSE "tail"
   /\ UNCHANGED <<img, start, idx, pending, saved, crashed, nblob>>
 
 (* a stream writer appends n body cells and returns its directory entry *)
@@ -108,7 +115,7 @@ SeekBack ==
 Crash == /\ ~crashed /\ pc # "alloc" /\ crashed' = TRUE /\ pc' = "dead"
          /\ UNCHANGED <<img, file, start, fpos, hi, idx, flushed, pending, saved, nblob>>
 
-Next == \/ AllocHeaderAndDir \/ WriteTail \/ (\E n \in 0..MaxBody : WriteStream(n) \/ WriteBlob(n))
+Next == \/ AllocHeaderAndDir \/ (\E n \in 0..(HdrLen + NSlots + MaxBody) : WriteTail(n)) \/ (\E n \in 0..MaxBody : WriteStream(n) \/ WriteBlob(n))
         \/ DirentMem \/ StreamPos \/ SeekSlot \/ WriteSlot \/ SeekBack \/ Crash
 Spec == Init /\ [][Next]_vars
 
